@@ -38,8 +38,11 @@ bool g_custom_units = false;
 bool is_dec(const std::string &s, bool *is_int = nullptr) {
     size_t i = 0, n = s.size();
     if (i < n && (s[i] == '+' || s[i] == '-')) i++;
-    size_t d1 = 0, d2 = 0;
-    while (i < n && isdigit((unsigned char) s[i])) i++, d1++;
+    size_t d1 = 0, d2 = 0, lead0 = 0;
+    while (i < n && isdigit((unsigned char) s[i])) {
+        if (s[i] == '0' && lead0 == d1) lead0++;   // leading zeros carry no value, however many there are
+        i++, d1++;
+    }
     bool dot = false;
     if (i < n && s[i] == '.') {
         dot = true;
@@ -60,7 +63,7 @@ bool is_dec(const std::string &s, bool *is_int = nullptr) {
         while (i < n && isdigit((unsigned char) s[i])) i++, d3++;
         if (!d3) return false;
     }
-    if (is_int) *is_int = !dot && !expo && d1 > 0 && d1 <= 9;
+    if (is_int) *is_int = !dot && !expo && d1 > 0 && d1 - lead0 <= 9;
     return i == n;
 }
 bool split_decsuf(const std::string &s, std::string &num, std::string &suf) {
@@ -894,6 +897,11 @@ std::string gen_lit(Rng &r, int cls, bool avoid_dot) {
             static const char *reals[] = {"1.5", "-2.25", "1e3", "2.5E-3", "10.", "+1.E2", "0.5", "1 E3", "1.5E -3", "2 e +1", "-1 e 3", "7\tE\t2"};
             static const char *dots[] = {".5", "+.5", "-.25", ".5e1"};
             int k = (int) r.below(avoid_dot ? 8 : 10);
+            if (r.chance(1, 20)) {
+                // a literal far longer than any value needs: hundreds of leading zeros, then the value
+                std::string z((size_t) r.range(200, 340), '0');
+                return (r.chance(1, 4) ? "-" : "") + z + std::to_string((long) r.below(100000));
+            }
             if (k < 5) return ints[r.below(9)];
             if (k < 8) return reals[r.below(sizeof reals / sizeof reals[0])];
             return dots[r.below(4)];
